@@ -149,11 +149,17 @@ fn obs_coq(o: &Obs) -> String {
 }
 
 fn emit_events(sink: &mut Sink, src: u64, tag: &str, pol: Pol, evs: &[Ev], obs: &[Obs]) {
-    let coq = capp(
-        "CEvents",
-        &[cn(src), pol.coq(), clist(evs, ev_coq), clist(obs, obs_coq)],
-    );
-    let mut t = format!("{} policy={}", tag, pol.txt());
+    emit_events_shape(sink, src, tag, pol, None, evs, obs)
+}
+fn emit_events_shape(sink: &mut Sink, src: u64, tag: &str, pol: Pol, shape: Option<&Shape>, evs: &[Ev], obs: &[Obs]) {
+    let coq = match shape {
+        Some(sh) => capp("CShapeEvents", &[cn(src), sh.coq(), clist(evs, ev_coq), clist(obs, obs_coq)]),
+        None => capp("CEvents", &[cn(src), pol.coq(), clist(evs, ev_coq), clist(obs, obs_coq)]),
+    };
+    let mut t = match shape {
+        Some(sh) => format!("{} credential={:?} required_policy={}", tag, sh, pol.txt()),
+        None => format!("{} policy={}", tag, pol.txt()),
+    };
     for (e, o) in evs.iter().zip(obs.iter()) {
         t.push_str(&format!(
             " | t={}{}{} -> {:?} {}{}",
@@ -482,7 +488,57 @@ fn gen_random(sink: &mut Sink, rng: &mut Rng, thorough: bool) {
 enum Path {
     Auth,
     Unix,
+    /// password + one TOTP (30 s)
     Totp,
+    /// password + TOTPs (60 s and 30 s) + a security key + backup codes
+    TotpKey,
+}
+impl Path {
+    fn is_totp(self) -> bool {
+        matches!(self, Path::Totp | Path::TotpKey)
+    }
+}
+
+/// shape of a credential as the model sees it
+#[derive(Clone, Debug)]
+enum Shape {
+    Password,
+    Generated,
+    Mfa(Vec<u64>, u64, bool),
+    Passkey(u64),
+}
+impl Shape {
+    fn coq(&self) -> String {
+        match self {
+            Shape::Password => "SPassword".into(),
+            Shape::Generated => "SGenerated".into(),
+            Shape::Mfa(steps, keys, b) => capp("SMfa", &[clist(steps, |x| cn(*x)), cn(*keys), cbool(*b)]),
+            Shape::Passkey(n) => capp("SPasskey", &[cn(*n)]),
+        }
+    }
+    fn real(&self, rng: &mut Rng) -> (hook::CredShape, Vec<Totp>) {
+        match self {
+            Shape::Password => (hook::CredShape::Password, vec![]),
+            Shape::Generated => (hook::CredShape::GeneratedPassword, vec![]),
+            Shape::Mfa(steps, keys, b) => {
+                let totps: Vec<Totp> = steps.iter().map(|st| Totp::new(rng.bytes(24), *st, TotpAlgo::Sha256, TotpDigits::Six)).collect();
+                let named = totps.iter().enumerate().map(|(i, t)| (format!("t{}", i), t.clone())).collect();
+                (hook::CredShape::PasswordMfa { totps: named, security_keys: *keys as usize, backup_codes: *b }, totps)
+            }
+            Shape::Passkey(n) => (hook::CredShape::Passkey(*n as usize), vec![]),
+        }
+    }
+    /// the policy the property REQUIRES for the factors offered (not what the code selects)
+    fn required(&self) -> Pol {
+        match self {
+            Shape::Password | Shape::Generated => Pol::Password,
+            Shape::Mfa(steps, keys, _) => match steps.iter().min() {
+                Some(m) => Pol::Totp(*m),
+                None => if *keys > 0 { Pol::Webauthn } else { Pol::Password },
+            },
+            Shape::Passkey(_) => Pol::Webauthn,
+        }
+    }
 }
 
 struct Person {
@@ -490,7 +546,17 @@ struct Person {
     name: String,
     cred_id: Uuid,
     pol: Pol,
-    totp: Option<Totp>,
+    shape: Shape,
+    totps: Vec<Totp>,
+}
+
+impl Person {
+    fn steps(&self) -> Vec<u64> {
+        match &self.shape {
+            Shape::Mfa(steps, _, _) => steps.clone(),
+            _ => vec![],
+        }
+    }
 }
 
 fn cai() -> ClientAuthInfo {
@@ -498,15 +564,16 @@ fn cai() -> ClientAuthInfo {
 }
 
 async fn mk_person(idms: &IdmServer, n: u64, path: Path, rng: &mut Rng) -> Person {
-    let mut cred = hook::cred_new_password(PW_GOOD);
-    let mut totp = None;
-    if path == Path::Totp {
-        let t = Totp::new(rng.bytes(24), 30, TotpAlgo::Sha256, TotpDigits::Six);
-        cred = hook::cred_append_totp(&cred, "t1", t.clone());
-        totp = Some(t);
-    }
+    let shape = match path {
+        Path::Totp => Shape::Mfa(vec![30], 0, false),
+        Path::TotpKey => Shape::Mfa(vec![60, 30], 1, true),
+        _ => Shape::Password,
+    };
+    let (real_shape, totps) = shape.real(rng);
+    let cred = hook::cred_of_shape(&real_shape, PW_GOOD);
     let cred_id = hook::cred_uuid(&cred);
-    let pol = Pol::of_real(&hook::cred_softlock_policy(&cred));
+    // the lock must behave as the policy REQUIRED for the credential's factors
+    let pol = shape.required();
     let uuid = Uuid::from_u128(0xc28c_28c2_0000_0000_0000_0000_0000_0000u128 + n as u128);
     let name = format!("c28person{}", n);
     let mut e: Entry<EntryInit, EntryNew> = kanidmd_lib::entry_init!(
@@ -528,7 +595,7 @@ async fn mk_person(idms: &IdmServer, n: u64, path: Path, rng: &mut Rng) -> Perso
     let mut w = idms.proxy_write(duration_from_epoch_now()).await.expect("proxy_write");
     w.qs_write.internal_create(vec![e]).expect("create person");
     w.commit().expect("commit");
-    Person { uuid, name, cred_id, pol, totp }
+    Person { uuid, name, cred_id, pol, shape, totps }
 }
 
 async fn set_expiry(idms: &IdmServer, who: &Person, e_secs: u64) {
@@ -583,12 +650,12 @@ impl Driver<'_> {
         let r = a.auth(&init, t_init, cai()).await.expect("init");
         let sid = r.sessionid;
         assert!(matches!(r.state, AuthState::Choose(_)), "init: {:?}", r.state);
-        let mech = if self.path == Path::Totp { AuthMech::PasswordTotp } else { AuthMech::Password };
+        let mech = if self.path.is_totp() { AuthMech::PasswordTotp } else { AuthMech::Password };
         let begin = AuthEvent::from_message(Some(sid), AuthStep::Begin(mech).into()).expect("begin ev");
         let r = a.auth(&begin, d(ct), cai()).await.expect("begin");
         let o = match r.state {
             AuthState::Continue(_) => {
-                self.open.push((sid, if self.path == Path::Totp { Stage::AwaitTotp } else { Stage::AwaitPw }));
+                self.open.push((sid, if self.path.is_totp() { Stage::AwaitTotp } else { Stage::AwaitPw }));
                 Out::Passed
             }
             AuthState::Denied(ref why) if why == "Account is temporarily locked" => Out::Refused,
@@ -606,11 +673,17 @@ impl Driver<'_> {
         let cred = match stage {
             Stage::AwaitPw => AuthCredential::Password(if bad { PW_BAD } else { PW_GOOD }.to_string()),
             Stage::AwaitTotp => {
-                let totp = self.who.totp.as_ref().expect("totp");
-                let good = totp.do_totp_duration_from_epoch(&d(ct)).expect("totp now");
-                let prev = totp.do_totp_duration_from_epoch(&d(ct.saturating_sub(30 * G))).expect("totp prev");
+                // the right code of the 30 s TOTP; a wrong code differs from the current and previous
+                // code of every TOTP of the credential
+                let main = self.who.totps.last().expect("totp");
+                let good = main.do_totp_duration_from_epoch(&d(ct)).expect("totp now");
+                let mut taken = vec![];
+                for (t, st) in self.who.totps.iter().zip(self.who.steps().iter()) {
+                    taken.push(t.do_totp_duration_from_epoch(&d(ct)).expect("totp now"));
+                    taken.push(t.do_totp_duration_from_epoch(&d(ct.saturating_sub(st * G))).expect("totp prev"));
+                }
                 let mut wrong = (good + 1) % 1_000_000;
-                while wrong == good || wrong == prev {
+                while taken.contains(&wrong) {
                     wrong = (wrong + 1) % 1_000_000;
                 }
                 AuthCredential::Totp(if bad { wrong } else { good })
@@ -669,7 +742,7 @@ impl Driver<'_> {
     }
 }
 
-async fn server_history(idms: &IdmServer, rng: &mut Rng, n_person: u64, path: Path, n: usize, scripted_cap: bool) -> (Pol, Vec<Ev>, Vec<Obs>) {
+async fn server_history(idms: &IdmServer, rng: &mut Rng, n_person: u64, path: Path, n: usize, scripted_cap: bool) -> (Pol, Option<Shape>, Vec<Ev>, Vec<Obs>) {
     let who = mk_person(idms, n_person, path, rng).await;
     let pol = who.pol;
     let w = pol.window();
@@ -729,19 +802,25 @@ async fn server_history(idms: &IdmServer, rng: &mut Rng, n_person: u64, path: Pa
             }
         }
     }
-    (pol, dr.evs, dr.obs)
+    let shape = if path.is_totp() { Some(dr.who.shape.clone()) } else { None };
+    (pol, shape, dr.evs, dr.obs)
 }
 
 async fn gen_server(sink: &mut Sink, rng: &mut Rng, thorough: bool) {
     let (idms, _delayed, _audit) = setup_idm_test(TestConfiguration::default()).await;
     let mut person = 0u64;
     let reps = if thorough { 40 } else { 8 };
-    for (path, src, tag) in [(Path::Auth, 1u64, "srv_auth_password"), (Path::Unix, 2, "srv_auth_unix"), (Path::Totp, 3, "srv_auth_totp")] {
+    for (path, src, tag) in [
+        (Path::Auth, 1u64, "srv_auth_password"),
+        (Path::Unix, 2, "srv_auth_unix"),
+        (Path::Totp, 3, "srv_auth_totp"),
+        (Path::TotpKey, 4, "srv_auth_totp_seckey"),
+    ] {
         for _ in 0..reps {
             person += 1;
             let n = rng.range(10, 24) as usize;
-            let (pol, evs, obs) = server_history(&idms, rng, person, path, n, false).await;
-            emit_events(sink, src, tag, pol, &evs, &obs);
+            let (pol, shape, evs, obs) = server_history(&idms, rng, person, path, n, false).await;
+            emit_events_shape(sink, src, tag, pol, shape.as_ref(), &evs, &obs);
         }
     }
     // the day-end scenario of C28_prefix_refuted on the real server: 3 failures, a 4th 2 s before midnight
@@ -768,15 +847,44 @@ async fn gen_server(sink: &mut Sink, rng: &mut Rng, thorough: bool) {
     }
     // drive the real server to the cap: > 100 wrong passwords in one day, > 3 wrong TOTPs in one step
     person += 1;
-    let (pol, evs, obs) = server_history(&idms, rng, person, Path::Unix, 125, true).await;
+    let (pol, _, evs, obs) = server_history(&idms, rng, person, Path::Unix, 125, true).await;
     emit_events(sink, 2, "srv_unix_to_cap", pol, &evs, &obs);
-    person += 1;
-    let (pol, evs, obs) = server_history(&idms, rng, person, Path::Totp, 12, true).await;
-    emit_events(sink, 3, "srv_totp_to_cap", pol, &evs, &obs);
+    for (path, src, tag) in [(Path::Totp, 3u64, "srv_totp_to_cap"), (Path::TotpKey, 4, "srv_totp_seckey_to_cap")] {
+        person += 1;
+        let (pol, shape, evs, obs) = server_history(&idms, rng, person, path, 14, true).await;
+        emit_events_shape(sink, src, tag, pol, shape.as_ref(), &evs, &obs);
+    }
     if thorough {
         person += 1;
-        let (pol, evs, obs) = server_history(&idms, rng, person, Path::Auth, 230, true).await;
+        let (pol, _, evs, obs) = server_history(&idms, rng, person, Path::Auth, 230, true).await;
         emit_events(sink, 1, "srv_auth_to_cap", pol, &evs, &obs);
+    }
+}
+
+// ------------------------------------------------------------------ CPolicy: the real softlock_policy()
+fn gen_policy(sink: &mut Sink, rng: &mut Rng) {
+    let mut shapes = vec![Shape::Password, Shape::Generated, Shape::Passkey(0), Shape::Passkey(1), Shape::Passkey(3)];
+    let step_sets: Vec<Vec<u64>> = vec![vec![], vec![30], vec![60], vec![1], vec![60, 30], vec![30, 60], vec![45, 45], vec![90, 30, 60], vec![120, 90, 5, 60]];
+    for steps in &step_sets {
+        for keys in [0u64, 1, 2] {
+            for b in [false, true] {
+                shapes.push(Shape::Mfa(steps.clone(), keys, b));
+            }
+        }
+    }
+    for sh in &shapes {
+        let (real_shape, _) = sh.real(rng);
+        let cred = hook::cred_of_shape(&real_shape, PW_GOOD);
+        let got = Pol::of_real(&hook::cred_softlock_policy(&cred));
+        sink.bump("policy");
+        if matches!(sh, Shape::Mfa(st, k, _) if !st.is_empty() && *k > 0) {
+            sink.bump("policy_totp_with_security_key");
+        }
+        put(
+            capp("CPolicy", &[sh.coq(), got.coq()]),
+            format!("policy credential={:?} -> {} (required {})", sh, got.txt(), sh.required().txt()),
+            matches!(sh, Shape::Mfa(..)),
+        );
     }
 }
 
@@ -784,11 +892,12 @@ fn main() {
     let args = parse_args();
     let mut rng = Rng::new(args.seed);
     let mut sink = Sink::new(&args, "KV.C28.Model", 900);
-    sink.rule = "CNext: failure_next_state on the boundary grid (policies x counts at every threshold x instants around second/step/day ends, sub-second offsets). \
+    sink.rule = "CPolicy: the real Credential::softlock_policy() on every credential shape (password, generated password, passkeys, PasswordMfa with 0-4 TOTPs of various steps x 0-2 security keys x backup codes). CNext: failure_next_state on the boundary grid (policies x counts at every threshold x instants around second/step/day ends, sub-second offsets). \
 CRaw: every single raw transition from a grid of lock states (all three kinds, counts at thresholds, unlock/reset before/at/after T, consumed or new expiry) plus random 2-5 op sequences. \
 CEvents src 0: the consultation discipline on a real CredSoftLock — ALL words of length 4 over {advance 0,1,1.5 s} (quick) / length 4-5 over {0,0.5,1,1.5 s} (thorough) x {wrong,right} near a day end / step end for every policy, with 3 s delays, and with administrator expiries in the alphabet; random long histories (130-230 consultations for passwords so that the 100/day cap is reached, 10-60 for TOTP) that aim just after each unlock time, over real time scales, incl. clock regressions and expiries. \
-CEvents src 1/2/3: a real IdmServer (auth Init/Begin/Cred with interleaved sessions, auth_unix, password+TOTP) at harness-chosen times with wrong and right credentials, administrator expiry set on the entry, lock read back after every call; one scripted run per path to the cap. \
-non-trivial = (CEvents) at least one failure was recorded AND at least one consultation was refused; (CNext) a lock was produced; (CRaw) the state changed.".into();
+CEvents src 1/2 and CShapeEvents src 3/4: a real IdmServer (auth Init/Begin/Cred with interleaved sessions, auth_unix, password+TOTP, password+two TOTPs+security key+backup codes through the PasswordTotp mechanism; the lock is required to behave as the policy demanded by the credential's factors) at harness-chosen times with wrong and right credentials, administrator expiry set on the entry, lock read back after every call; one scripted run per path to the cap. \
+non-trivial = (CPolicy) an MFA credential; (CEvents/CShapeEvents) at least one failure was recorded AND at least one consultation was refused; (CNext) a lock was produced; (CRaw) the state changed.".into();
+    gen_policy(&mut sink, &mut rng);
     gen_next(&mut sink, args.thorough);
     gen_raw(&mut sink, &mut rng, args.thorough);
     gen_exhaustive(&mut sink, args.thorough);
